@@ -91,5 +91,5 @@ Interesting(x) ==
 Hash(x) == (x.lb * 7 + x.qlb * 13 + (x.off + 5) * 17 + x.step * 19 + x.start * 23 + x.n * 29
             + Cardinality({u \in 0..MaxT : x.lay[u] = "f"}) * 31
             + FoldSet(LAMBDA u, acc : acc + (IF x.lay[u] = "-" THEN 0 ELSE IF x.lay[u] = "f" THEN u + 1 ELSE 3 * (u + 1)), 0, 0..MaxT) * 37)
-EmitSel == IF (Interesting(g) /\ Hash(g) % Mod = Seed % Mod) THEN Emit(ScnOf(g)) ELSE TRUE
+EmitSel == IF (Interesting(g) /\ Pick(Hash(g), 0, Mod) = Seed % Mod) THEN Emit(ScnOf(g)) ELSE TRUE
 =============================================================================
